@@ -1028,6 +1028,26 @@ def common_summaries():
                 outs.append((s, ('CALL', c[1], [] if is_opt else [payload0(ex, s, c[0], 1)], None)))
         return outs
 
+    @reg(r'^(std::option::)?Option::<.*>::or_else::<')
+    def o_or_else(ex, st, fn, argv):
+        """the option itself if Some, else whatever the closure returns"""
+        o = as_enum(ex, st, argv[0])
+        outs = []
+        for (s, c, some) in ex.fork_on(st, o.disc_bv() == 1, (o, argv[1])):
+            if some:
+                outs.append((s, c[0]))
+            else:
+                outs.append((s, ('CALL', c[1], [], None)))
+        return outs
+
+    @reg(r'^(std::option::)?Option::<.*>::or$')
+    def o_or(ex, st, fn, argv):
+        o = as_enum(ex, st, argv[0])
+        outs = []
+        for (s, c, some) in ex.fork_on(st, o.disc_bv() == 1, (o, argv[1])):
+            outs.append((s, c[0] if some else c[1]))
+        return outs
+
     @reg(r'^(std::option::)?Option::<.*>::filter::<')
     def o_filter(ex, st, fn, argv):
         """Some(x) if the predicate holds for &x, else None"""
